@@ -14,6 +14,9 @@ from ..rules import has_guard
 C = "reactivex/scheduler/catchscheduler.py"
 
 
+from ..astutil import compare_parts, compare_parts as compare_parts_  # noqa: E402
+
+
 def handler_analysis(rep: Report, fn, handler_call_prefix: str, what: str, extra_swallow=None) -> None:
     """In fn: the user action is called inside a try catching Exception; the handler calls the user handler with the
     caught exception, re-raises iff it returned falsy, swallows otherwise."""
@@ -60,11 +63,20 @@ def check(repo: Repo, rep: Report) -> None:
     rep.rule("R2-cache-key", "the cached recursive wrapper is rebuilt when absent and when the inner scheduler differs from its key", floor=3)
     rep.rule("P1-periodic", "periodic: failed latch dominates later ticks and is set before the handler runs; swallow disposes the periodic subscription", floor=4)
     cls = repo.fn(C, "CatchScheduler")
+    # roles of the instance attributes, by how __init__ fills them (never by their names): the wrapped scheduler and the
+    # user's handler are the attributes initialised from the 1st / 2nd constructor parameter
+    from ..rules import self_attr_stores_from_params
+    init = repo.fn(C, "CatchScheduler.__init__")
+    byp = self_attr_stores_from_params(init)
+    ip = [p_ for p_ in init.params if p_ != "self"]
+    A_S = next((a for a, ps in byp.items() if ip and ps == {ip[0]}), "?wrapped-scheduler")
+    A_H = next((a for a, ps in byp.items() if len(ip) > 1 and ps == {ip[1]}), "?handler")
+    INNER, HND = f"self.{A_S}", f".{A_H}"
     for mname, fwd in (("schedule", []), ("schedule_relative", ["duetime"]), ("schedule_absolute", ["duetime"])):
         m = repo.fn(C, f"CatchScheduler.{mname}")
         wraps = [s for s in sites(m) if isinstance(s.node, ast.Assign) and u(s.node.value) == "self._wrap(action)"]
         wname = u(wraps[0].node.targets[0]) if wraps else None
-        calls = [s for s in sites(m) if isinstance(s.node, ast.Call) and dotted(s.node.func) == f"self._scheduler.{mname}"]
+        calls = [s for s in sites(m) if isinstance(s.node, ast.Call) and dotted(s.node.func) == f"{INNER}.{mname}"]
         ok = len(calls) == 1 and bool(wraps)
         if ok:
             c = calls[0].node
@@ -85,10 +97,10 @@ def check(repo: Repo, rep: Report) -> None:
                f"exceptions never reach the handler")
         rets = [s for s in sites(m) if isinstance(s.node, ast.Return)]
         rep.ob("W1-wrap-coverage", m, f"{mname}: returns the wrapped scheduler's disposable",
-               bool(rets) and all(isinstance(r.node.value, ast.Call) and dotted(r.node.value.func) == f"self._scheduler.{mname}" for r in rets),
+               bool(rets) and all(isinstance(r.node.value, ast.Call) and dotted(r.node.value.func) == f"{INNER}.{mname}" for r in rets),
                f"CatchScheduler.{mname} does not return the disposable of the underlying scheduling (cancellation lost)")
     wa = repo.fn(C, "CatchScheduler._wrap.wrapped_action")
-    handler_analysis(rep, wa, "._handler", "wrapped_action")
+    handler_analysis(rep, wa, HND, "wrapped_action")
     acts = [s for s in sites(wa) if isinstance(s.node, ast.Call) and isinstance(s.node.func, ast.Name) and s.node.func.id == "action"]
     ok = len(acts) == 1 and isinstance(acts[0].node.args[0], ast.Call) and (dotted(acts[0].node.args[0].func) or "").endswith("._get_recursive_wrapper") \
         and len(acts[0].node.args) == 2 and u(acts[0].node.args[1]) == wa.params[1] and bool(acts[0].ctx.tries)
@@ -98,22 +110,28 @@ def check(repo: Repo, rep: Report) -> None:
     rep.ob("R1-recursive", wrap, "returns wrapped_action", any(isinstance(s.node, ast.Return) and u(s.node.value) == "wrapped_action" for s in sites(wrap)),
            "_wrap does not return the guarding wrapper")
     cl = repo.fn(C, "CatchScheduler._clone")
-    ok = any(isinstance(s.node, ast.Return) and u(s.node.value) == f"CatchScheduler({cl.params[1]}, self._handler)" for s in sites(cl))
+    ok = any(isinstance(s.node, ast.Return) and u(s.node.value) == f"CatchScheduler({cl.params[1]}, self{HND})" for s in sites(cl))
     rep.ob("R1-recursive", cl, "_clone keeps the handler", ok, "the recursive wrapper does not use the same handler")
     grw = repo.fn(C, "CatchScheduler._get_recursive_wrapper")
+    # the cache attribute is what _get_recursive_wrapper returns; its key is the attribute the parameter is recorded in
+    rv = [s.node.value for s in sites(grw) if isinstance(s.node, ast.Return) and isinstance(s.node.value, ast.Attribute) and u(s.node.value.value) == "self"]
+    A_W = rv[0].attr if rv else "?wrapper-cache"
+    kk = [s.node.targets[0].attr for s in sites(grw) if isinstance(s.node, ast.Assign) and isinstance(s.node.targets[0], ast.Attribute)
+          and u(s.node.targets[0].value) == "self" and u(s.node.value) == grw.params[1]]
+    A_K = kk[0] if kk else next((cp_[0][5:] if cp_[0].startswith("self.") else cp_[2][5:] for e_ in ast.walk(grw.node) if isinstance(e_, ast.Compare)
+                                 for cp_ in [compare_parts_(e_)] if cp_ and grw.params[1] in (cp_[0], cp_[2]) and (cp_[0] + cp_[2]).count("self.") == 1), "?wrapper-key")
     ok = any(isinstance(s.node, ast.Assign) and u(s.node.value) == f"self._clone({grw.params[1]})" for s in sites(grw)) and \
-        any(isinstance(s.node, ast.Return) and u(s.node.value) == "self._recursive_wrapper" for s in sites(grw))
+        len(rv) == len([s for s in sites(grw) if isinstance(s.node, ast.Return)]) and bool(rv)
     rep.ob("R1-recursive", grw, "wrapper built by _clone(scheduler)", ok, "the recursive wrapper is not a CatchScheduler clone over the inner scheduler")
     clones = {u(s.node.targets[0]) for s in sites(grw) if isinstance(s.node, ast.Assign) and u(s.node.value) == f"self._clone({grw.params[1]})"}
     for s in sites(grw):
-        if isinstance(s.node, ast.Assign) and isinstance(s.node.targets[0], ast.Attribute) and s.node.targets[0].attr == "_recursive_wrapper":
+        if isinstance(s.node, ast.Assign) and isinstance(s.node.targets[0], ast.Attribute) and s.node.targets[0].attr == A_W:
             rep.ob("R1-recursive", grw, f"`{short(s.node)}` stores a CatchScheduler clone", u(s.node.value) in clones,
                    f"`{short(s.node)}` stores something that is not the catching clone as a recursive wrapper: actions scheduled from deeper "
                    f"recursion levels receive the raw scheduler and their exceptions bypass the handler")
     # the cached wrapper is keyed by the scheduler it wraps: it is rebuilt whenever there is none yet AND whenever the
     # scheduler handed to the action is not the one it was built over (thread schedulers hand out a fresh one per action)
     from ..rules import guards_hold_when
-    from ..astutil import compare_parts
     par = grw.params[1]
 
     def leaf(stale, missing):
@@ -121,16 +139,16 @@ def check(repo: Repo, rep: Report) -> None:
             cp = compare_parts(e)
             if cp:
                 l_, op, r_ = cp
-                if {l_, r_} == {"self._recursive_original", par}:
+                if {l_, r_} == {f"self.{A_K}", par}:
                     return stale if op in ("!=", "is not") else (None if stale is None else not stale) if op in ("==", "is") else None
-                if l_ == "self._recursive_wrapper" and r_ == "None":
+                if l_ == f"self.{A_W}" and r_ == "None":
                     return missing if op in ("is", "==") else (None if missing is None else not missing) if op in ("is not", "!=") else None
                 return None
-            if u(e) == "self._recursive_wrapper":
+            if u(e) == f"self.{A_W}":
                 return None if missing is None else not missing
             return None
         return val
-    stores = [s for s in sites(grw) if isinstance(s.node, ast.Assign) and u(s.node.targets[0]) == "self._recursive_wrapper"]
+    stores = [s for s in sites(grw) if isinstance(s.node, ast.Assign) and u(s.node.targets[0]) == f"self.{A_W}"]
     for s in stores:
         rep.ob("R2-cache-key", grw, f"`{short(s.node)}` runs whenever the wrapped scheduler changed",
                guards_hold_when(grw, s.ctx, leaf(True, None)),
@@ -139,7 +157,7 @@ def check(repo: Repo, rep: Report) -> None:
         rep.ob("R2-cache-key", grw, f"`{short(s.node)}` runs whenever no wrapper exists yet",
                guards_hold_when(grw, s.ctx, leaf(None, True)),
                "no recursive wrapper is built on first use: the action receives None as its scheduler")
-        keys = [k for k in sites(grw) if isinstance(k.node, ast.Assign) and u(k.node.targets[0]) == "self._recursive_original"
+        keys = [k for k in sites(grw) if isinstance(k.node, ast.Assign) and u(k.node.targets[0]) == f"self.{A_K}"
                 and u(k.node.value) == par and k.ctx.guards == s.ctx.guards]
         rep.ob("R2-cache-key", grw, "the key is recorded with the wrapper", bool(keys),
                f"the rebuilt wrapper is not recorded against `{par}`: the cache never matches (or matches the wrong scheduler)")
@@ -148,7 +166,7 @@ def check(repo: Repo, rep: Report) -> None:
     # periodic
     per = repo.fn(C, "CatchScheduler.schedule_periodic.periodic")
     sp = repo.fn(C, "CatchScheduler.schedule_periodic")
-    handler_analysis(rep, per, "._handler", "periodic tick")
+    handler_analysis(rep, per, HND, "periodic tick")
     # roles: the failed latch is the schedule_periodic local initialised False that the tick sets True; the periodic
     # subscription is the SingleAssignmentDisposable local that schedule_periodic returns
     from ..rules import locals_by_init, names_assigned_const, cell_name as _cellname
@@ -166,7 +184,7 @@ def check(repo: Repo, rep: Report) -> None:
     disp_ok = False
     for h in hs:
         sets = [n for n in h.body if isinstance(n, ast.Assign) and _cellname(n.targets[0]) == failed and u(n.value) == "True"]
-        first_call = next((i for i, n in enumerate(h.body) if any(isinstance(x, ast.Call) and (dotted(x.func) or "").endswith("._handler") for x in ast.walk(n))), None)
+        first_call = next((i for i, n in enumerate(h.body) if any(isinstance(x, ast.Call) and (dotted(x.func) or "").endswith(HND) for x in ast.walk(n))), None)
         if sets and first_call is not None and h.body.index(sets[0]) < first_call:
             ok = True
         disp_ok = any(isinstance(x, ast.Call) and dotted(x.func) == f"{disp}.dispose" for x in ast.walk(h))
@@ -174,7 +192,7 @@ def check(repo: Repo, rep: Report) -> None:
            "the failed latch is not set before the handler runs: if the handler raises or swallows, later ticks still run the action")
     rep.ob("P1-periodic", per, "swallow path disposes the periodic subscription", disp_ok,
            "after a handled exception the periodic work is not stopped")
-    inner_names = {"self._scheduler"} | {u(s.node.targets[0]) for s in sites(sp) if isinstance(s.node, ast.Assign) and "self._scheduler" in u(s.node.value)
+    inner_names = {INNER} | {u(s.node.targets[0]) for s in sites(sp) if isinstance(s.node, ast.Assign) and INNER in u(s.node.value)
                                          and isinstance(s.node.targets[0], ast.Name)}
     calls = [s for s in sites(sp) if isinstance(s.node, ast.Call) and isinstance(s.node.func, ast.Attribute) and s.node.func.attr == "schedule_periodic"
              and dotted(s.node.func.value) in inner_names]
